@@ -27,7 +27,7 @@ func init() { core.Register(c14{}) }
 func (c14) ID() string    { return "C14" }
 func (c14) Level() string { return "exploration" }
 func (c14) Rule() string {
-	return "package models (DEBIAN/control paragraph from the C10 generator; control.tar with './control' or 'control' first, in the middle or last among md5sums/postinst/conffiles; data.tar with directories, files of 0 B..256 KiB, symlinks; optional members _gpgorigin/_extra after data) written with the harness ar/tar writers in all 6x6 encodings {stored, gz, xz, bz2, lzma, zst} of control.tar x data.tar (every cell in every run), plus packages built by the real dpkg-deb -Z{none,gzip,xz,zstd}; loaded with Load and LoadFile. Checked: every Control field (reflective, as C10), ControlExt/DataExt, ArContent names/sizes/bytes, the data tar listing (name, type, size, content) in order, agreement of repeated loads, Close; packages with debian-binary 1.0/3.0/0.93, or lacking debian-binary/control.*/data.*, must be rejected. Non-trivial = any loaded package; distinct by hash of (seed, configuration)."
+	return "package models (DEBIAN/control paragraph from the C10 generator; control.tar with './control' or 'control' first, in the middle or last among md5sums/postinst/conffiles; data.tar with directories, files of 0 B..256 KiB, symlinks; optional members _gpgorigin/_extra after data) written with the harness ar/tar writers in all 6x6 encodings {stored, gz, xz, bz2, lzma, zst} of control.tar x data.tar (every cell in every run), plus packages built by the real dpkg-deb -Z{none,gzip,xz,zstd}; loaded with Load and LoadFile. Checked: every Control field (reflective, as C10), ControlExt/DataExt, ArContent names/sizes/bytes, the data tar listing (name, type, size, content) in order, agreement of repeated loads, Close; packages with debian-binary 1.0/3.0/0.93/20.0/21.5/200.0/12.0/22, or lacking debian-binary/control.*/data.*, must be rejected. Non-trivial = any loaded package; distinct by hash of (seed, configuration)."
 }
 func (c14) Assumptions() []string {
 	return []string{"xz/bzip2 CLIs (or python3 lzma/bz2), klauspost zstd and kjk lzma encoders and dpkg-deb are correct producers", "acceptance of format 2.x minor versions other than 2.0 is not demanded"}
@@ -51,7 +51,7 @@ func (c14) Mandatory(tier string) []string {
 		}
 	}
 	return append(m, "control-position:first", "control-position:middle-or-last", "control-name:./control", "control-name:control", "extra-members", "via:Load", "via:LoadFile",
-		"reject:version-1.0", "reject:version-3.0", "reject:version-0.93", "reject:no-debian-binary", "reject:no-control", "reject:no-data", "data:symlink", "data:dir", "data:empty-file", "repeat-loads-agree", "two-packages-open", "control:after-large-md5sums", "control:straddles-32KiB", "member-mtime>=2^31", "xz-dict-limit-lowered-and-restored")
+		"reject:version-1.0", "reject:version-3.0", "reject:version-0.93", "reject:version-20.0", "reject:version-21.5", "reject:version-200.0", "reject:version-12.0", "reject:version-22", "reader:eof-with-last-member-byte", "control-tar:nested-control-first", "reject:no-debian-binary", "reject:no-control", "reject:no-data", "data:symlink", "data:dir", "data:empty-file", "repeat-loads-agree", "two-packages-open", "control:after-large-md5sums", "control:straddles-32KiB", "member-mtime>=2^31", "xz-dict-limit-lowered-and-restored")
 }
 
 func codecName(e string) string {
@@ -256,8 +256,10 @@ func (p c14) run(c *core.C, t *core.T, cs c14Case) {
 	raw := model.WriteAr(members, r.Bool())
 	if cs.Variant != "ok" {
 		d, err := deb.Load(bytes.NewReader(raw), "x.deb")
-		tag := map[string]string{"version:1.0": "version-1.0", "version:3.0": "version-3.0", "version:0.93": "version-0.93", "missing:debian-binary": "no-debian-binary",
-			"missing:control": "no-control", "missing:data": "no-data"}[cs.Variant]
+		tag := map[string]string{"missing:debian-binary": "no-debian-binary", "missing:control": "no-control", "missing:data": "no-data"}[cs.Variant]
+		if strings.HasPrefix(cs.Variant, "version:") {
+			tag = "version-" + strings.TrimPrefix(cs.Variant, "version:")
+		}
 		c.Cover("reject:" + tag)
 		c.Nontrivial()
 		if err == nil {
@@ -270,7 +272,15 @@ func (p c14) run(c *core.C, t *core.T, cs c14Case) {
 	// Load, repeated
 	var first string
 	for i := 0; i < 6; i++ {
-		d, err := deb.Load(bytes.NewReader(raw), "some/path.deb")
+		var src io.ReaderAt = bytes.NewReader(raw)
+		if i%2 == 1 {
+			// a source that reports io.EOF together with the last bytes of the input
+			src = &core.CountingReaderAt{In: bytes.NewReader(raw), Size: int64(len(raw)), ExactEOF: true}
+			if len(raw)%2 == 0 && len(members[len(members)-1].Data)%2 == 0 {
+				c.Cover("reader:eof-with-last-member-byte")
+			}
+		}
+		d, err := deb.Load(src, "some/path.deb")
 		if err != nil {
 			c.Failf("Load failed on a well-formed package (control %s, data %s, members %s): %v", codecName(cs.CExt), codecName(cs.DExt), memberNames(members), err)
 			return
@@ -291,6 +301,14 @@ func (p c14) run(c *core.C, t *core.T, cs c14Case) {
 	}
 	c.Cover("repeat-loads-agree")
 	c.Cover("via:Load")
+	for _, e := range m.ControlFiles {
+		if e.Type == tar.TypeReg && (e.Name == "./control" || e.Name == "control") {
+			break
+		}
+		if strings.HasSuffix(e.Name, "/control") {
+			c.Cover("control-tar:nested-control-first")
+		}
+	}
 	if m.Timestamp >= 1<<31 {
 		c.Cover("member-mtime>=2^31")
 	}
@@ -493,7 +511,7 @@ func (p c14) RunBatch(t *core.T, b core.Batch) {
 			emit(c14Case{Seed: r.U64(), CExt: r.Pick([]string{"gz", "gz", "", "zst", "lzma"}), DExt: "", Variant: "ok", Straddle: true})
 		}
 	case "reject":
-		vs := []string{"version:1.0", "version:3.0", "version:0.93", "missing:debian-binary", "missing:control", "missing:data"}
+		vs := []string{"version:1.0", "version:3.0", "version:0.93", "version:20.0", "version:21.5", "version:200.0", "version:12.0", "version:22", "missing:debian-binary", "missing:control", "missing:data"}
 		for i := 0; i < b.N; i++ {
 			emit(c14Case{Seed: r.U64(), CExt: r.Pick([]string{"", "gz"}), DExt: r.Pick([]string{"", "gz"}), Variant: vs[(i+b.Arg)%len(vs)]})
 		}
